@@ -25,7 +25,11 @@ def groups(tier, rng):
     for s in fam.SETS:
         corner = sorted({d for ds in ct.get(s, {}).get('events', {}).values() for d in ds})
         G.append((f'dudect_keygen_sign_with_rng ML-DSA-{s}: all RNG outputs', [f"t.dudect {s} 6d7367 {bytes(rng.randrange(256) for _ in range(64)).hex()}" for _ in range(n)]
-                  + [f"t.dudect {s} 6d7367 {'00' * 64}", f"t.dudect {s} 6d7367 {'ff' * 64}"] + [f"t.dudect {s} 6d7367 {d}" for d in corner], True))
+                  + [f"t.dudect {s} 6d7367 {'00' * 64}", f"t.dudect {s} 6d7367 {'ff' * 64}"] + [f"t.dudect {s} 6d7367 {d}" for d in corner]
+                  # RNG outputs of special form: leading / trailing zero or FF bytes in the seed half and in the rnd half (a byte-wise scan of the
+                  # secret that stops early - a "is it all zero" test, a comparison - runs a different number of steps on these)
+                  + [f"t.dudect {s} 6d7367 {(bytes([v]) * kz + bytes((11 * i + kz) % 255 + 1 for i in range(32 - kz))).hex()}{(bytes((7 * i) % 255 + 1 for i in range(32 - kr)) + bytes([v]) * kr).hex()}"
+                     for v in (0, 255) for kz, kr in ((1, 0), (2, 0), (8, 0), (31, 0), (32, 0), (0, 1), (0, 31), (0, 32))], True))
     k = 40 if tier == 'thorough' else 6
     D = 2143289343
     G.append(('center_mod on secret coefficients', [f"t.center_mod {rp(rng, -D, D)}" for _ in range(k)] + [f"t.center_mod {','.join(['4190208'] * 256)}", f"t.center_mod {','.join(['-4190209'] * 256)}"], True))
